@@ -37,7 +37,7 @@ impl Monitor for C16 {
         ]
     }
     fn rule(&self) -> String {
-        "case = one generated history with payloads from 0 to several hundred KiB; evaluation = one call after which resource_usage() is read and compared with quantities computed from the observed snapshot: P = retained payload bytes, N = queue-name bytes, R = retained records; asserted: P+N <= used <= P+N+64R, used <= allocated, a truncation that evicted e records of E bytes lowers `used` by between E and E+64e, and with every queue empty N <= used <= N+64*queues; distinct_nontrivial = distinct (P, N, R) triples with R >= 2".into()
+        "case = one generated history with payloads from 0 to several hundred KiB; evaluation = one call after which resource_usage() is read and compared with quantities computed from the observed snapshot: P = retained payload bytes, N = queue-name bytes, R = retained records; asserted: P+N <= used <= P+N+64R and used <= P+N+cR where c is the per-record overhead measured on a trivial 10-record state of the same build, used <= allocated, a truncation that evicted e records of E bytes lowers `used` by between E + c*e and E+64e, and with every queue empty N <= used <= N+64*queues; distinct_nontrivial = distinct (P, N, R) triples with R >= 2".into()
     }
     fn assumptions(&self) -> Vec<String> {
         vec!["'small constant per retained record' is taken as <= 64 bytes (the statement gives no number; the implementation's is 24)".into()]
@@ -68,6 +68,27 @@ impl Monitor for C16 {
             let r: u64 = s.queues.values().map(|q| q.recs.len() as u64).sum();
             (p, n, r)
         };
+        // calibrate the per-record constant on a trivial state of this very build: a scratch
+        // log with one queue holding 10 small records (no truncation, no gaps)
+        let per_record = {
+            let cdir = ctx.scratch.sub("c16-calib");
+            match crate::ops::Sut::open(&cdir, crate::ops::Policy::AlwaysFlush, 7, false) {
+                Ok(mut s) => {
+                    let _ = s.apply(0, &Op::Create { q: "c".into() });
+                    for k in 1..=10 {
+                        let _ = s.apply(k, &Op::Append { q: "c".into(), pos: None, lens: vec![10], chained: false });
+                    }
+                    let used = s.log().resource_usage().memory_used_bytes as u64;
+                    ((used.saturating_sub(1 + 100)) + 9) / 10
+                }
+                Err(_) => SLACK,
+            }
+        };
+        if per_record == 0 || per_record > SLACK {
+            acc.violation("C16/per-record-overhead-above-64-bytes-in-a-trivial-state", case, json!({"calibrated_per_record_overhead": per_record}));
+            return;
+        }
+        acc.max("max_calibrated_per_record_overhead_bytes", per_record);
         let mut prev_snap = Snapshot::default();
         let mut prev_used = d.sut.log().resource_usage().memory_used_bytes as u64;
         let mut sampled = false;
@@ -115,6 +136,16 @@ impl Monitor for C16 {
                 acc.violation(format!("C16/used-exceeds-retained-data-plus-slack/after-{}", st.op.kind()), case, detail("memory_used_bytes <= payload + names + 64 per record"));
                 return;
             }
+            // the constant observed in a trivial state of the same build must also bound every
+            // other state (a record that is not retained must not be paid for)
+            if used > p + n + per_record * r {
+                acc.violation(
+                    format!("C16/used-exceeds-retained-data-plus-calibrated-per-record-overhead/after-{}", st.op.kind()),
+                    case,
+                    json!({"history": d.history_json(300), "after_call": st.op.to_json(), "memory_used_bytes": used, "retained_payload_bytes": p, "queue_name_bytes": n, "retained_records": r, "calibrated_per_record_overhead": per_record, "excess_bytes": used - (p + n + per_record * r)}),
+                );
+                return;
+            }
             if used > alloc {
                 acc.violation(format!("C16/used-exceeds-allocated/after-{}", st.op.kind()), case, detail("memory_used_bytes <= memory_allocated_bytes"));
                 return;
@@ -134,6 +165,16 @@ impl Monitor for C16 {
                     let eb: u64 = before_q.map(|b| b.recs.iter().filter(|x| after_q.map(|a| a.recs.binary_search_by_key(&x.pos, |y| y.pos).is_err()).unwrap_or(true)).map(|x| x.len as u64).sum()).unwrap_or(0);
                     let drop = prev_used.saturating_sub(used);
                     acc.count("truncations_that_evicted_checked");
+                    // an evicted record must give back at least what a record costs in a trivial
+                    // state of the same build (its payload bytes + the calibrated overhead)
+                    if drop < eb + per_record * (*evicted as u64) {
+                        acc.violation(
+                            "C16/truncation-released-less-than-the-evicted-records-cost",
+                            case,
+                            json!({"history": d.history_json(300), "call": st.op.to_json(), "evicted_records": evicted, "evicted_payload_bytes": eb, "calibrated_per_record_overhead": per_record, "used_before": prev_used, "used_after": used, "released": drop}),
+                        );
+                        return;
+                    }
                     if drop < eb || drop > eb + SLACK * (*evicted as u64) {
                         acc.violation(
                             "C16/truncation-did-not-release-what-it-evicted",
